@@ -35,7 +35,10 @@ CONSTANTS NumBlocks,   \* numeric blocks requested through eth_getBalance      (
           Rule,        \* archive rule distance of the spec (ETH1: 127)
           Seed,        \* TRUE: earliest is seeded from the first member (F19 fixed)
           EarliestLow, \* TRUE: latestCallback treats the EARLIEST tag as the lowest block (F19b fixed)
-          Guard        \* TRUE: eth_call clause guarded (F12 fixed)
+          ZeroOk,      \* TRUE: block 0 (genesis) is a block number: the callbacks test >= 0 and a summarised
+                       \*       earliest of 0 is stored as EARLIEST because 0 means "unset" in the message (F19d fixed)
+          Guard,       \* TRUE: eth_call clause guarded (F12 fixed)
+          Tendermint   \* TRUE: the sibling loop of TendermintChainParser.ParseMsg (tendermintRPC.go) instead of jsonRPC.go
 
 AR == INSTANCE ArchiveRule WITH Nums <- {}, Latests <- {}, Rules <- {}, Methods <- {},
                                 req <- 0, latest <- 0, rule <- 0, method <- ""
@@ -54,20 +57,21 @@ Min(a, b) == IF a <= b THEN a ELSE b
 
 ----------------------------------------------------------------------------
 (* common.go CompareRequestedBlockInBatch *)
+Num(x) == IF ZeroOk THEN x >= 0 ELSE x > 0      \* "is a block number" as the callbacks test it
 LatestCb(cur, p) ==
   IF EarliestLow /\ cur = EARLIEST THEN p
   ELSE IF EarliestLow /\ p = EARLIEST THEN cur
   ELSE IF cur < 0 /\ p < 0 THEN Max(cur, p)
-  ELSE IF cur > 0 /\ p < 0 /\ p # EARLIEST THEN p
-  ELSE IF cur < 0 /\ p > 0 /\ cur # EARLIEST THEN cur
+  ELSE IF Num(cur) /\ p < 0 /\ p # EARLIEST THEN p
+  ELSE IF cur < 0 /\ Num(p) /\ cur # EARLIEST THEN cur
   ELSE Max(cur, p)
 
 EarliestCb(cur, p) ==
   IF cur = EARLIEST \/ p = EARLIEST THEN EARLIEST
   ELSE IF cur = NA \/ p = NA THEN NA
   ELSE IF cur < 0 /\ p < 0 THEN Min(cur, p)
-  ELSE IF cur > 0 /\ p < 0 THEN cur
-  ELSE IF cur < 0 /\ p > 0 THEN p
+  ELSE IF Num(cur) /\ p < 0 THEN cur
+  ELSE IF cur < 0 /\ Num(p) THEN p
   ELSE Min(cur, p)
 
 Compare(lat, earl, p) == <<LatestCb(lat, p), EarliestCb(earl, p)>>
@@ -76,10 +80,17 @@ Compare(lat, earl, p) == <<LatestCb(lat, p), EarliestCb(earl, p)>>
 RECURSIVE FoldFrom(_, _, _)
 FoldFrom(acc, s, i) == IF i > Len(s) THEN acc
                        ELSE FoldFrom(Compare(acc[1], acc[2], s[i].b), s, i + 1)
-Fields(s) ==
+FieldsJson(s) ==
   LET first == <<s[1].b, IF Seed THEN s[1].b ELSE 0>>
       f == FoldFrom(first, s, 2)
-  IN IF Len(s) = 1 THEN <<s[1].b, s[1].b>> ELSE f
+  IN IF Len(s) = 1 THEN <<s[1].b, s[1].b>>
+     ELSE IF ZeroOk /\ f[2] = 0 THEN <<f[1], EARLIEST>> ELSE f
+(* tendermintRPC.go ParseMsg loop: starts from (0, LATEST); idx 0 stores latest = parsedBlock; for batches
+   of more than one message EVERY index (0 included) is folded with Compare; one-member batch: earliest = latest *)
+FieldsTM(s) ==
+  IF Len(s) = 1 THEN <<s[1].b, s[1].b>>
+  ELSE FoldFrom(Compare(s[1].b, LATEST, s[1].b), s, 2)
+Fields(s) == IF Tendermint THEN FieldsTM(s) ELSE FieldsJson(s)
 
 (* chain_message.go RequestedBlock() *)
 Requested(s) == LET f == Fields(s) IN AR!RequestedBlockOf(f[1], f[2])
@@ -121,6 +132,7 @@ Init == batch \in Batches /\ latest \in Latests
 Next == UNCHANGED vars
 
 HasNA(s) == \E i \in 1..Len(s) : s[i].b = NA
+HasZero(s) == \E i \in 1..Len(s) : s[i].b = 0
 
 OrderIndependent == \A p \in Perms(Len(batch)) :
                        LET q == Summary(Apply(batch, p), latest) IN
